@@ -88,7 +88,7 @@ double DownhillSimplexMethod::doStep()
 
   for (unsigned int i = 0; i < mpts; i++)
   {
-    if (y_[i] <= y_[iLowest_])
+    if (y_[i] < y_[iLowest_])
       iLowest_ = i;
     if (y_[i] > y_[iHighest_])
     {
@@ -162,6 +162,8 @@ ParameterList DownhillSimplexMethod::getPSum()
   // ... and initializes it.
   for (size_t j = 0; j < ndim; j++)
   {
+    // This is a sum of coordinates, not a point: the parameter's constraint does not apply to it.
+    pSum[j].removeConstraint();
     double sum = 0.;
     for (size_t i = 0; i < mpts; i++)
     {
